@@ -122,3 +122,13 @@ Definition run_apply_mut_with (xs ys : list Z) : list Z :=
 Definition run_sort (rev : bool) (xs : list Z) : list Z :=
   let '(ok, out) := sort_unstable_by (if rev then Z.geb else Z.leb) xs in
   (if ok then c_int 0 else c_err) ++ cells c_int out.
+
+(* ---- audit: sources whose announced length (upper size hint) differs from what they yield ------- *)
+Definition run_collect_plain_hint (hint : nat) (items : list Z) : list Z :=
+  enc_outcome c_int (collect_from_iter (TI hint items)).
+Definition run_collect_trusted_hint (raw : bool) (hint : nat) (items : list Z) : list Z :=
+  enc_outcome c_int (collect_from_trusted (bk raw) (TI hint items)).
+Definition run_try_collect_hint (hint : nat) (items : list (Z + Z)) : list Z :=
+  enc_tres (try_collect_from_iter (TI hint items)) (pulled items).
+Definition run_try_collect_trusted_hint (raw : bool) (hint : nat) (items : list (Z + Z)) : list Z :=
+  enc_tres (try_collect_from_trusted (bk raw) (TI hint items)) (pulled items).
